@@ -262,8 +262,10 @@ def check(run: Run) -> None:
 
     # ---------------- R4
     os_cls = m.find_class("ObjectStream", in_module="func_adl.object_stream")
+    from ..lib import view
+
     for op in ("Select", "SelectMany", "Where"):
-        f = os_cls.methods.get(op)
+        f = view(m, os_cls.methods.get(op))
         if f is None:
             raise AnalysisError(f"anchor vanished: ObjectStream.{op}")
         fo = ctx.analysis(f)
